@@ -25,6 +25,16 @@ VERIF = os.path.dirname(os.path.dirname(os.path.abspath(__file__)))
 FILES = ['reader.py', 'tdms_segment.py', 'base_segment.py', 'tdms.py', 'daqmx.py', 'channel_data.py', 'types.py',
          'timestamp.py', 'writer.py', 'scaling.py', 'common.py']
 CHECKS = ['C%02d' % i for i in range(1, 21)]
+# checks that exercise a file at all (a mutant is run against these only)
+RELEVANT = {
+    'scaling.py': ['C03', 'C10', 'C13', 'C14', 'C17', 'C18'],
+    'writer.py': ['C07', 'C08', 'C09', 'C10', 'C12', 'C16', 'C20'],
+    'timestamp.py': ['C01', 'C03', 'C07', 'C10', 'C12', 'C14', 'C15'],
+    'types.py': ['C01', 'C02', 'C03', 'C06', 'C07', 'C08', 'C10', 'C12', 'C15'],
+    'daqmx.py': ['C03', 'C04', 'C05', 'C06', 'C11', 'C13', 'C14', 'C15', 'C19'],
+    'common.py': ['C01', 'C07', 'C08', 'C16'],
+}
+READ_SIDE = ['C01', 'C02', 'C03', 'C04', 'C05', 'C06', 'C09', 'C10', 'C11', 'C14', 'C15', 'C19', 'C20']
 CMP = {ast.Lt: '<=', ast.LtE: '<', ast.Gt: '>=', ast.GtE: '>', ast.Eq: '!=', ast.NotEq: '==', ast.Is: 'is not',
        ast.IsNot: 'is'}
 BIN = {ast.Add: '-', ast.Sub: '+', ast.Mult: '//', ast.FloorDiv: '*', ast.Mod: '//'}
@@ -121,7 +131,7 @@ def run_mutant(m, all_lines, scale, timeout_checks):
         env = dict(os.environ, NPTDMS_REPO=scr, VERIF_EVIDENCE_DIR=os.path.join(scr, 'ev'), VERIF_REPLAY_DIR=os.path.join(scr, 'rp'),
                    VERIF_NO_SHRINK='1', VERIF_SCALE=str(scale), VERIF_CASE_TIMEOUT='30')
         t0 = time.time()
-        for cid in CHECKS:
+        for cid in RELEVANT.get(m['file'], READ_SIDE):
             try:
                 r = subprocess.run([os.path.join(VERIF, 'check'), cid, '--tier', 'quick'], env=env, capture_output=True,
                                    text=True, timeout=timeout_checks)
